@@ -90,10 +90,11 @@ func (l *RateLimiter) Acquire(ctx context.Context, tokens int) (err error) {
 	if l.timeout > 0 && delay > l.timeout {
 		return core.ErrTimeout
 	}
-	ctx, cancel := context.WithTimeout(ctx, delay)
-	<-ctx.Done()
+	wait, cancel := context.WithTimeout(ctx, delay)
+	<-wait.Done()
 	cancel()
-	return
+	// a caller whose own context ended before its time has come is not admitted
+	return ctx.Err()
 }
 
 // IOHandler for RateLimiter.
